@@ -213,8 +213,58 @@ def differential_case(case):
     return {"v": v[:3], "nt": [case], "stats": {"evals": 1}, "out": [(name, float(sc1))], "sample": {"estimator": name, "named": named, "precomputed": pre}}
 
 
+def reconfigured_case(case):
+    """History: an estimator that has been fitted and scored with one kernel / metric / mode is re-parameterised with set_params and used
+    again: it must train and score exactly like a fresh estimator built with the new hyperparameters."""
+    name, first, second, seed = case
+    X = seams.tiny_data(7, 3, seed + 64)
+    if any(aff.needs_nonneg(t.get("kernel", "linear")) for t in (first, second)):
+        X = np.abs(X) + 0.1
+    common = {"random_state": seed, "max_iter": 3}
+    used, y1, _ = C.build(name, dict(common, **first), X, seed)
+    fresh, y2, exp2 = C.build(name, dict(common, **second), X, seed)
+    where = dict(estimator=name, first=str(first), second=str(second))
+    v = []
+    with warnings.catch_warnings():
+        warnings.simplefilter("ignore")
+        used.fit(X, y1)
+        used.score(X, y1)
+        valid = fresh.get_params(deep=False)
+        changed = {k_: valid[k_] for k_ in ("kernel", "kernel_params", "metric", "metric_params", "ovo", "gemini") if k_ in valid}
+        used.set_params(**changed)
+        used.fit(X, y2)
+        fresh.fit(X, y2)
+        s1, s2 = _state(used), _state(fresh)
+        for k_ in s2:
+            if k_ not in s1 or not np.array_equal(s1[k_], s2[k_]):
+                v.append(violation("reconfigured_estimator_differs_from_fresh_one", {"attribute": k_}, attribute=k_, **where))
+                break
+        a, b = used.score(X, y2), fresh.score(X, y2)
+        if not a == b:
+            v.append(violation("reconfigured_estimator_scores_differently", {"reconfigured": a, "fresh": b}, **where))
+        if y2 is not None:
+            for call in ("fit", "score"):
+                try:
+                    getattr(used, call)(X, None)
+                    v.append(violation("missing_precomputed_matrix_is_not_an_error", {"call": call, "after": "set_params(kernel/metric='precomputed')"}, call=call, **where))
+                except (ValueError, TypeError):
+                    pass
+    return {"v": v[:3], "nt": [case], "stats": {"evals": 1}, "sample": {"estimator": name, "first": first, "then": second}}
+
+
 def explorers(tier, seed):
     thorough = tier == "thorough"
+    c4 = []
+    for name in ("LinearMMD", "MLPMMD", "SparseLinearMMD", "SparseMLPMMD", "CategoricalMMD"):
+        for first, second in (({"kernel": "linear"}, {"kernel": "rbf_g"}), ({"kernel": "rbf_g"}, {"kernel": "poly_p", "ovo": True}), ({"kernel": "linear"}, {"kernel": "pre_psd"}),
+                              ({"kernel": "rbf_g", "ovo": True}, {"kernel": "rbf_g"}), ({"kernel": "poly_p"}, {"kernel": "poly_c0"})):
+            c4.append((name, first, second, seed))
+    for name in M.HAS_METRIC:
+        for first, second in (({"metric": "euclidean"}, {"metric": "l1"}), ({"metric": "l1", "ovo": True}, {"metric": "cosine"}), ({"metric": "euclidean"}, {"metric": "pre_metric"})):
+            c4.append((name, first, second, seed))
+    for name in M.GENERIC_GEMINI:
+        for first, second in (({"gemini": "mmd_ova"}, {"gemini": "tv_ovo"}), ({"gemini": "mi"}, {"gemini": ["MMD", "rbf_g", True]}), ({"gemini": ["W", "l1", False]}, {"gemini": "wasserstein_ovo"})):
+            c4.append((name, first, second, seed))
     c1 = []
     ktags = [s[0] for s in aff.KERNEL_SPECS]
     for name in ("LinearMMD", "MLPMMD", "SparseLinearMMD", "SparseMLPMMD", "CategoricalMMD"):
@@ -262,4 +312,7 @@ def explorers(tier, seed):
         Explorer("named_vs_precomputed", "props.c11", "differential_case", c3, chunk=4, floor=50,
                  rule="fit / path / score with a named kernel or metric vs the same matrix given as 'precomputed': fitted attributes, path histories, best "
                       "weights and scores bitwise equal (gradient models with both batch modes, and Kauri)"),
+        Explorer("reconfigured", "props.c11", "reconfigured_case", c4, chunk=2, floor=20,
+                 rule="history: fit + score with one kernel / metric / ovo / gemini, set_params to another, fit + score again: bitwise equal to a fresh estimator "
+                      "built with the new hyperparameters; a missing precomputed matrix is an error after switching to 'precomputed'"),
     ]
